@@ -479,6 +479,8 @@ theorem rsqrt_seed_ok {x : UInt32} (hs : signBit x = false) :
     rw [UInt32.toNat_sub_of_le _ _ (by rw [UInt32.le_iff_toNat_le]; exact hle), hsh]; rfl
   rw [expField_eq, hsub]; omega
 
+example : signBit 0x40800000 = false ∧ rsqrtSeed 0x40800000 = .ok 0x3EF75A86 := by decide   -- x = 4.0, seed ≈ 0.483
+
 /-- Very negative inputs underflow the `u32` subtraction: a panic in the checked profile, never a
 wrong value (outside the domain of `recip_sqrt`). -/
 example : rsqrtSeed 0xBF800000 = .panic "attempt to subtract with overflow" := by decide
@@ -501,6 +503,8 @@ theorem heron_step (x s e : K) (hs : s * s = x) (hs0 : s ≠ 0) (he : 1 + e ≠ 
     heronStep x ((1 + e) * s) = s * (1 + e ^ 2 / (2 * (1 + e))) := by
   unfold heronStep
   rw [← hs]; field_simp; ring
+-- satisfiable: x = 4, s = 2, e = 1/10
+example : (2 : ℚ) * 2 = 4 ∧ (2 : ℚ) ≠ 0 ∧ (1 : ℚ) + 1 / 10 ≠ 0 := by norm_num
 end Newton
 
 section NewtonOrdered
@@ -752,5 +756,8 @@ theorem round_half_mm_eq {x : UInt32} {σ : ℚ} (hs : toRat? (add x half) = som
   have hodd : (2 * ⌊σ⌋ + 1 : ℤ) ≠ 0 := by omega
   have : ((2 * ⌊σ⌋ + 1 : ℤ) : ℚ) ≠ 0 := by exact_mod_cast hodd
   exact div_ne_zero this (by norm_num)
+
+example : toRat? (add 0xC0200000 half) = some (-2) ∧
+    roundUpHalfFp mmFloor 0xC0200000 = roundUpHalfFp F32.floor 0xC0200000 := by decide +kernel   -- x = −2.5
 
 end Retro.Props.C20
